@@ -289,6 +289,24 @@ let gen seed n =
   for k = 0 to n - 1 do gen_one rng (Printf.sprintf "sch%d-%d" seed k) done
 
 (* ---- check ---- *)
+(* position of a label on its program's path; a real thread that is FURTHER on the same path than the model's thread
+   passed a program point without yielding (the code's shape moved a statement off the anchored path): "drift", the
+   step-by-step comparison of that schedule stops there; anything else is a mismatch *)
+let rank (l : ostring) : (char * int) option =
+  let find c lst = let rec go i = function [] -> None | x :: r -> if x = l then Some (c, i) else go (i + 1) r in go 0 lst in
+  match find 'Q' ["Q0"; "Q1"; "Q1b"; "Q2"; "Q3"; "Q4"; "Q5"] with Some r -> Some r | None ->
+  match find 'D' ["D0"; "D1"; "D2"; "D3"; "D4"; "D5"; "D6"; "D7"] with Some r -> Some r | None ->
+  match find 'K' ["K0"; "K1"; "K2"; "K3"] with Some r -> Some r | None ->
+  match find 'C' ["C0"; "C1"; "C2"; "C3"; "C4"; "C5"; "C6"; "C7"] with Some r -> Some r | None ->
+  (match l with "QF" -> Some ('Q', 2) | "DF" -> Some ('D', 2) | "CA" -> Some ('C', 2) | _ -> None)
+let is_drift (want : ostring) (state : ostring) (label : ostring) : bool =
+  match rank want with
+  | None -> false
+  | Some (c, i) ->
+      if state = "finished" then true
+      else if state = "parked" then (match rank label with Some (c', j) -> c = c' && j > i | None -> false)
+      else false
+
 type sched_case = { sid : ostring; ths : sthread list; items : sitem list }
 
 let read_schedules file : sched_case list =
@@ -346,7 +364,7 @@ let check sfile tfile =
                    let ok =
                      if is_done then (state = "finished" || (state = "running" && (match t with TCb _ -> true | _ -> false)))
                      else (state = "parked" && label = want) in
-                   if not ok then bad := Some (Printf.sprintf "mismatch %d %s model=%s real=%s:%s" k (item_tok it) want state label))
+                   if not ok then bad := Some (Printf.sprintf "%s %d %s model=%s real=%s:%s" (if is_drift want state label then "drift" else "mismatch") k (item_tok it) want state label))
         end) sc.items;
       (match !bad with
        | Some m -> Printf.printf "K %s %s\n" sc.sid m
